@@ -37,7 +37,8 @@ type script struct {
 	Inbound int    `json:"inbound"` // frames the peer sends to the connection
 	Event   string `json:"event"`   // none | localClose | localCloseReason | peerClose | peerEof | writeFail | readFail
 	Place   string `json:"place"`   // start | idle | mid | blockedFull
-	K       int    `json:"k"`       // writeFail / readFail: the k-th transport write / read after set-up fails
+	K       int    `json:"k"`       // writeFail / readFail: the k-th transport write / read after set-up fails; localCloseReason: 1 = the
+	// transport write of the close frame returns late (after the peer reacted to the frame)
 	Delay   int    `json:"delay"`   // mid: microseconds before the event
 }
 
@@ -91,6 +92,7 @@ type faultConn struct {
 	failWriteAt int32
 	failReadAt  int32
 	blockAt     int32
+	slowClose   bool
 	release     chan struct{}
 	closed      chan struct{}
 	closeOnce   sync.Once
@@ -115,6 +117,12 @@ func (c *faultConn) Write(b []byte) (int, error) {
 			c.l.add("NetWrite", 0, int(k), "err")
 			return 0, errors.New("injected transport write failure")
 		}
+	}
+	if c.slowClose && len(b) > 0 && b[0]&0x0f == websocket.CloseMessage && c.armed.Load() {
+		// a legal schedule made likely: the write call of the close frame returns only after the peer has reacted to the frame
+		n, err := c.Conn.Write(b)
+		time.Sleep(30 * time.Millisecond)
+		return n, err
 	}
 	return c.Conn.Write(b)
 }
@@ -210,6 +218,20 @@ func runScript(s script) *result {
 				case strings.HasPrefix(cmd, "close"):
 					code, _ := strconv.Atoi(cmd[5:])
 					_ = c.WriteControl(websocket.CloseMessage, websocket.FormatCloseMessage(code, "peer close"), time.Now().Add(time.Second))
+				case strings.HasPrefix(cmd, "bad"):
+					// frames a SHIP peer must never send (C08): the connection may be closed, the process must survive
+					switch cmd[3:] {
+					case "1":
+						_ = c.WriteMessage(websocket.TextMessage, []byte("text frame"))
+					case "2":
+						_ = c.WriteMessage(websocket.BinaryMessage, []byte{1})
+					case "3":
+						_ = c.WriteMessage(websocket.BinaryMessage, []byte{})
+					case "4":
+						_ = c.WriteMessage(websocket.BinaryMessage, append([]byte{1, 0, 77}, make([]byte, 1<<20)...))
+					default:
+						_ = c.WriteControl(websocket.PingMessage, []byte("ping with payload"), time.Now().Add(time.Second))
+					}
 				case strings.HasPrefix(cmd, "in"):
 					n, _ := strconv.Atoi(cmd[2:])
 					_ = c.WriteMessage(websocket.BinaryMessage, []byte{1, 0, byte(n)})
@@ -252,6 +274,7 @@ func runScript(s script) *result {
 	if s.Place == "blockedFull" {
 		fc.blockAt = 1
 	}
+	fc.slowClose = s.Event == "localCloseReason" && s.K == 1
 	fc.armed.Store(true)
 	sut := ws.NewWebsocketConnection(conn, "ski")
 	res.sut = sut
@@ -290,6 +313,9 @@ func runScript(s script) *result {
 			code := closeCodes[(s.K+len(closeCodes)-1)%len(closeCodes)]
 			l.add("PeerClose", 0, code, "")
 			peerCmd <- "close" + strconv.Itoa(code)
+		case "peerBad":
+			l.add("PeerBad", 0, s.K, "")
+			peerCmd <- "bad" + strconv.Itoa(s.K)
 		case "peerEof":
 			l.add("PeerEof", 0, 0, "")
 			peerCmd <- "eof"
